@@ -214,7 +214,15 @@ pub fn read_to_eof(s: &mut TcpStream, deadline: Duration) -> (Vec<u8>, bool) {
             Ok(0) => return (buf, true),
             Ok(n) => buf.extend_from_slice(&tmp[..n]),
             Err(ref e) if e.kind() == std::io::ErrorKind::WouldBlock || e.kind() == std::io::ErrorKind::TimedOut => {}
-            Err(_) => return (buf, true),
+            Err(e) => {
+                LAST_READ_ERROR.with(|c| *c.borrow_mut() = Some(format!("{:?}", e.kind())));
+                return (buf, true);
+            }
         }
     }
+}
+
+thread_local! {
+    /// kind of the last read error seen by `read_to_eof` on this thread (diagnostics)
+    pub static LAST_READ_ERROR: std::cell::RefCell<Option<String>> = std::cell::RefCell::new(None);
 }
